@@ -43,6 +43,15 @@ def _guard_truth(test, ap, fn_node=None):
                 tbl[(e, a_)] = bool(fold(test, {"self.file_exists": e, ap: a_}))
             except NotConst:
                 return None
+    # "append" is whatever the caller passes (argparse gives a bool; other callers 0 / None / 1): the guard reads it by its truth, not by identity with False / True
+    for e in (False, True):
+        for a_ in (0, None, 1):
+            try:
+                v = bool(fold(test, {"self.file_exists": e, ap: a_}))
+            except NotConst:
+                continue
+            if v != tbl[(e, bool(a_))]:
+                tbl[(e, "append=%r" % (a_,))] = v
     return tbl
 
 
@@ -79,11 +88,15 @@ def vf1(ctx, c):
                     continue
                 # the test dominates the write; does it raise exactly when the file exists and append was not requested?
                 refuses = {k for k, v in tbl.items() if v == raise_label}
-                if refuses == {(True, False)}:
+                odd = sorted(k[1] for k in tbl if isinstance(k[1], str))
+                if refuses == {(True, False)} and not odd:
                     verdict = True
+                elif odd:
+                    verdict = verdict or False
+                    why = "the guard `%s` reads the flag by identity, not by truth: for an existing target it decides differently for %s than for the bool of the same truth" % (U(tn), ", ".join(odd))
                 else:
                     verdict = verdict or False
-                    why = "the guard `%s` refuses for (exists, append) in %s" % (U(tn), sorted(refuses))
+                    why = "the guard `%s` refuses for (exists, append) in %s" % (U(tn), sorted(refuses, key=str))
         site = "save_virtual_file:write@%s" % _branch_kind(fn_node, node)
         if verdict is True:
             c.ok(site, "dominated by a guard that raises exactly when the target exists and append was not requested", repo.loc(fn, node))
@@ -206,7 +219,13 @@ def vf1(ctx, c):
     if len(loops) == 1 and isinstance(loops[0].target, ast.Name):
         it = U(loops[0].iter)
         calls = [x for x in ast.walk(loops[0]) if isinstance(x, ast.Call) and U(x.func) == "self.add_file"]
-        if it == p and len(calls) == 1 and [U(a_) for a_ in calls[0].args] == [loops[0].target.id]:
+        skipping = [n_ for n_ in ast.walk(loops[0]) if isinstance(n_, ast.If) and (any(isinstance(x, (ast.Continue, ast.Break)) for x in n_.body)
+                                                                                or any(x is calls[0] for x in ast.walk(n_) if calls))]
+        if skipping:
+            c.finding("VirtualFileContainer.add_files:every-file", "a file is stored only when `%s` %s" % (U(skipping[0].test)[:40], "does not hold" if any(isinstance(x, (ast.Continue, ast.Break)) for x in skipping[0].body) else "holds"),
+                      "VirtualFileContainer.add_files decides under `%s` whether a file is stored at all: every file handed over is stored (a program that assembles to no bytes still has "
+                      "a name and an origin), and the caller is told so" % U(skipping[0].test)[:60], repo.loc(af, skipping[0]))
+        elif it == p and len(calls) == 1 and [U(a_) for a_ in calls[0].args] == [loops[0].target.id]:
             c.ok("VirtualFileContainer.add_files", "add_file for each file, in list order", repo.loc(af, af.node))
         elif it != p and re.search(r"reversed|sorted|\[::-1\]|\[-1:\]|\[1:\]|\[:-1\]", it):
             c.finding("VirtualFileContainer.add_files", "iterates %s" % it, "VirtualFileContainer.add_files iterates %s instead of the list in order" % it, repo.loc(af, af.node))
@@ -514,6 +533,11 @@ def cli4(ctx, c):
             c.finding("file_util --to_bin:several files", "an image holding %s files is not refused%s" % ({2: "two", 3: "three"}[n_on_image], "" if files is None else " when --files names one"),
                       "%s: %s; --to_bin writes a raw binary, which holds one file, and must refuse an image that holds more than one" %
                       (site, "the target is saved" if saves else "the run ends with %s" % end), where)
+    from ..model import one_shot_reuse as _osr
+    for nm_, b_, uses_ in _osr(fn0.node):
+        c.finding("file_util.main:one-shot", "`%s` is a one-shot iterator read at %d places" % (nm_, len(uses_)),
+                  "file_util.main binds `%s = %s` and loops over it for more than one target: the first loop exhausts it, so when two targets are given in one run (--to_cas X --to_dsk Y) "
+                  "the second image is written with no files at all, and the run still reports success" % (nm_, U(b_.value)[:50]), repo.loc(fn0, b_))
     c.ok("file_util.main", "%d configurations evaluated" % n_eval, where, nontrivial=False)
 
 
@@ -981,6 +1005,19 @@ def vf4(ctx, c):
         c.finding("open_virtual_file:exists", "assignment reachable without passing the existence test", "open_virtual_file sets file_exists outside the os.path.exists test of the target path", where)
     else:
         c.undecided("open_virtual_file:exists", "shape-not-recognised", "", where)
+    # "does the target exist" answered by trying to read it: only FileNotFoundError means no; any broader handler (OSError and up) takes an existing but unreadable target
+    # for a new one, and save then overwrites it without --append
+    for tr_ in [n for n in ast.walk(ov_flat) if isinstance(n, ast.Try)]:
+        sets_here = any(isinstance(x, ast.Assign) and U(x.targets[0]) == "self.file_exists" for b_ in tr_.body for x in ast.walk(b_))
+        if not sets_here:
+            continue
+        for h_ in tr_.handlers:
+            hn = [U(x).split(".")[-1] for x in (h_.type.elts if isinstance(h_.type, ast.Tuple) else [h_.type])] if h_.type is not None else ["BaseException"]
+            broad = [x for x in hn if x in ("OSError", "IOError", "EnvironmentError", "Exception", "BaseException", "PermissionError")]
+            if broad and not any(isinstance(y, ast.Raise) for y in ast.walk(h_)):
+                c.finding("open_virtual_file:exists-by-read", "an error of class %s while reading is taken for 'no such file'" % broad[0],
+                          "open_virtual_file decides that the target does not exist when reading it raises %s: that covers an existing file that cannot be read (permissions, a directory, "
+                          "an I/O error), which is then treated as new - its kind is never compared and save_virtual_file replaces it without --append" % broad[0], repo.loc(ov, h_))
     # if the path exists, file_exists is set on every path before anything can raise (so that save refuses to overwrite even after a failed open is caught)
     # kind mismatch raises
     mism = g.find(lambda k, n: k == "test" and "virtual_file_type" in U(n) and "!=" in U(n))
@@ -1282,7 +1319,42 @@ def vf3(ctx, c):
     c.floor("CLI container sites", n_sites, 7)
 
 
+def cli_args(ctx, c):
+    """the switches that decide what is written mean 'not given' when they are not given: no default that stands for a request (a name, an output path, append)"""
+    repo = ctx.repo
+    for rel in ("assembler.py", "file_util.py"):
+        if rel not in repo.modules:
+            continue
+        m = repo.modules[rel]
+        for f in m.funcs.values():
+            for x in ast.walk(f.node):
+                if not (isinstance(x, ast.Call) and isinstance(x.func, ast.Attribute) and x.func.attr == "add_argument" and x.args):
+                    continue
+                flag = try_fold(x.args[0], ctx.env)
+                if flag not in ("--append", "--name", "--to_bin", "--to_cas", "--to_dsk", "--files"):
+                    continue
+                kw = {k.arg: k.value for k in x.keywords if k.arg}
+                site = "%s:%s" % (rel.split(".")[0], flag)
+                if "default" in kw:
+                    dv = try_fold(kw["default"], ctx.env, default="?not-constant")
+                    neutral = dv is None or (flag == "--append" and dv is False)
+                    if not neutral:
+                        c.finding(site + ":default", "%s has the default %s" % (flag, U(kw["default"])[:40]),
+                                  "%s declares %s with default=%s: when the switch is not given the program behaves as if it had been (%s)" % (
+                                      rel, flag, U(kw["default"])[:50],
+                                      {"--append": "an existing image is appended to / overwritten without --append", "--name": "a file is written under a name nobody asked for instead of being refused"}.get(flag, "an output is written that was not requested")),
+                                  repo.loc(f, x))
+                        continue
+                if flag == "--append":
+                    act = try_fold(kw.get("action"), ctx.env) if "action" in kw else None
+                    c.check(act == "store_true", site + ":action", "a flag that is False unless given", "action=%r" % (act,),
+                            "%s declares --append with action %r: it must be a plain flag that is False unless given" % (rel, act), repo.loc(f, x))
+                else:
+                    c.ok(site + ":default", "not given means None", repo.loc(f, x))
+
+
 def cli1(ctx, c):
+    cli_args(ctx, c)
     """CLI-1 wiring of assembler.main: CoCoFile from the program; per-switch save blocks; no-name guard. CLI-2 handlers."""
     repo = ctx.repo
     fn = repo.func("assembler.py", "main")
